@@ -12,3 +12,4 @@ import LyModel.Props.C02
 #print axioms LyModel.Props.C02.state_family
 #print axioms LyModel.Props.C02.validate_ok_iff_valid
 #print axioms LyModel.Props.C02.validate_error_tag
+#print axioms LyModel.Props.C02.validate_ok_iff_valid_vacuous_for_np_containers
